@@ -33,9 +33,10 @@ def oracle(content, p, k):
             break
         pos, ln = stop, ln + 1
     lead = len(line) - len(line.lstrip(b" \t"))
-    vis = line[:197] if len(line) > 200 else line
-    shown = vis.lstrip(b" \t") + (b"..." if len(line) > 200 else b"")
-    has_visible = vis.strip(b" \t") != b""
+    # the statement: "the text of that line (left-trimmed, truncated at 200 bytes)" - the indentation does not count against the 200 bytes
+    trimmed = line.lstrip(b" \t")
+    shown = trimmed if len(trimmed) <= 200 else trimmed[:197] + b"..."
+    has_visible = trimmed != b""
     caret = max(0, (p - pos) - lead) if line.strip(b" \t") != b"" else None
     return ln, (shown if has_visible else None), caret
 
